@@ -441,7 +441,8 @@ where
             panic = util::take_panic();
         }
     } else {
-        match AssertUnwindSafe(app.call(req)).catch_unwind().await {
+        // `call` already runs the synchronous part of the middleware chain: keep it inside the guard
+        match AssertUnwindSafe(async { app.call(req).await }).catch_unwind().await {
             Ok(Ok(res)) => {
                 if hold {
                     held = Some(res);
@@ -1022,11 +1023,12 @@ pub fn main(args: &Args) -> i32 {
         st.over_capacity_drops,
         t0.elapsed().as_secs_f64()
     );
-    if st.recycle_confirmed == 0 {
-        eprintln!("MACHINERY: no request was ever served by a recycled object — the check would be vacuous");
+    let code = reporter.finish();
+    if code == 0 && st.recycle_confirmed == 0 {
+        eprintln!("MACHINERY: no request was ever served by a recycled object and nothing was reported — the check would be vacuous");
         return 2;
     }
-    reporter.finish()
+    code
 }
 
 fn replay(path: &str) -> i32 {
